@@ -36,6 +36,91 @@ def src(rel):
     return (REPO / rel).read_text()
 
 
+import subprocess
+import sexp as sx
+
+DRIVER = str(VERIF / "lean/.lake/build/bin/anthem_model")
+INTUITIONISTIC_REWRITES = {
+    "evaluate_comparisons", "apply_negation_definition_inverse", "apply_reverse_implication_definition",
+    "apply_equivalence_definition_inverse", "remove_identities", "remove_annihilations", "remove_idempotences",
+    "remove_orphaned_variables", "remove_empty_quantifications", "join_nested_quantifiers"}
+
+
+def ask_driver(requests):
+    p = subprocess.run([DRIVER], input="\n".join(requests) + "\n", stdout=subprocess.PIPE, text=True, timeout=1800)
+    return p.stdout.splitlines()
+
+
+def cex_request(req, impl, seed=1, tries=3000):
+    """Bounded-search request for one (request, implementation answer) pair, or None."""
+    try:
+        r = sx.parse(req)
+        a = sx.parse(impl)
+    except Exception:
+        return None
+    if a == ["panic"] or not isinstance(r, list):
+        return None
+    op = r[0]
+    if op == "gamma":
+        return sx.dump(["cex_gamma", r[1], a, str(seed), str(tries)])
+    if op == "substitute":
+        return sx.dump(["cex_subst", r[1], r[2], r[3], a, str(seed), str(tries)])
+    if op == "rewrite":
+        mode = "ht" if r[1] in INTUITIONISTIC_REWRITES else "classic"
+        return sx.dump(["cex_equiv", mode, r[2], a, str(seed), str(tries)])
+    if op == "simplify":
+        if not (isinstance(a, list) and len(a) == 2 and a[0] in ("ok", "timeout")):
+            return None
+        mode = "classic" if r[1] == "classic" else "ht"
+        return sx.dump(["cex_equiv", mode, r[4], a[1], str(seed), str(tries)])
+    return None
+
+
+def search_generic(mismatches, outdir):
+    """Evaluate the implementation's outputs on the disagreeing inputs against the reference semantics."""
+    reqs, idx = [], []
+    for i, m in enumerate(mismatches[:200]):
+        if "request" not in m:
+            continue
+        q = cex_request(m["request"], m["impl"])
+        if q:
+            reqs.append(q)
+            idx.append(i)
+    if not reqs:
+        return None
+    answers = ask_driver(reqs)
+    for i, a in zip(idx, answers):
+        if a.startswith("(found"):
+            m = mismatches[i]
+            return {"input_request": m["request"], "implementation_output": m["impl"], "model_output": m["model"],
+                    "origin": m.get("origin"), "bounded_countermodel": a,
+                    "note": "candidate failing input: the implementation's output evaluated against the reference semantics over a finite window "
+                            "(confirmed on a second, wider window); bounded evaluation is a test, not a proof"}
+    return None
+
+
+def oracle_scan(outdir, suite, limit, seed=1, tries=400):
+    """Implementation-vs-oracle: evaluate (input, implementation output) pairs of a suite run. Returns list of hits."""
+    reqs = (outdir / f"{suite}.req").read_text().splitlines()
+    imps = (outdir / f"{suite}.impl").read_text().splitlines()
+    origins = (outdir / f"{suite}.origin").read_text().splitlines()
+    qs, idx = [], []
+    for i, (r, a) in enumerate(zip(reqs, imps)):
+        if len(qs) >= limit:
+            break
+        if not origins[i].startswith("corpus:") and i % max(1, len(reqs) // limit) != 0:
+            continue
+        q = cex_request(r, a, seed, tries)
+        if q:
+            qs.append(q)
+            idx.append(i)
+    hits = []
+    for i, a in zip(idx, ask_driver(qs)):
+        if a.startswith("(found"):
+            hits.append({"request": reqs[i], "impl": imps[i], "origin": origins[i], "countermodel": a})
+    return hits, len(qs)
+
+
 def replay(pid, path):
     doc = json.loads(Path(path).read_text())
     print(json.dumps(doc, indent=1)[:4000])
@@ -43,6 +128,7 @@ def replay(pid, path):
 
 
 HOOK_COMMITS = ["ffc8b2b"]
+FIX_COMMITS = ["b9b9933", "8154c20", "f1b4fb0"]
 NOT_YET = {}
 
 PROOF_NOTE = ("Trusted: Lean kernel; Semantics/*.lean as the specification; the correspondence harness and serialisers; "
@@ -51,6 +137,7 @@ PROOF_NOTE = ("Trusted: Lean kernel; Semantics/*.lean as the specification; the 
 
 PROPS = {
     "C05": {
+        "search": search_generic,
         "level_text": "Full: gamma_correct proves, for every formula, HT interpretation and assignment, ht (H,T) here F <-> sat (merge H T) (gamma F) "
                       "(and the there/t-copy analogue), prefix_injective + merge_exists give distinct h/t copies; the model `gamma` is tied to "
                       "Gamma::gamma by exact tree equality on generated formulas on every run.",
@@ -61,6 +148,51 @@ PROPS = {
         "rule": "seeded random target-language formulas (depth 1-5, adversarial name pools, all connectives/quantifiers/sorts, "
                 "simplifier motifs) plus corpus/formulas.txt; request = Gamma::gamma on the real code vs Lean `gamma`, exact tree equality; "
                 "non-trivial = gamma changed the tree; distinct by request text",
+        "trusted_base": COMMON_TRUST,
+        "assumptions": COMMON_ASSUME,
+    },
+    "C07": {
+        "search": search_generic,
+        "suites": [("rewrite", 1500, 30000), ("simplify", 1200, 30000), ("substitute", 1500, 30000)],
+        "pins": [],
+        "rule": "seeded adversarial formulas (shadowed/repeated binders, X = t(X), duplicated conjuncts, mixed-sort equalities, the shapes each "
+                "rewrite looks for) + corpus; (a) each of the 15 rewrites at the root, (b) each portfolio concatenation x {shallow, recursive, "
+                "fixpoint (pass bound 64)}, (c) Formula::substitute; exact tree equality with the Lean model; non-trivial = output differs from input",
+        "level_text": "Intuitionistic and ht portfolios: full (portfolio_sound_intuitionistic/_ht: HT-equivalence for every strategy, pass bound, formula, "
+                      "interpretation with H subset T, world, assignment; each of the 10 INTUITIONISTIC rewrites proved). Classic portfolio: partial - "
+                      "remove_double_negation proved, congruence/composition/iteration proved (portfolio_sound_classic_of), the four remaining CLASSIC rewrites "
+                      "are tied by correspondence only until their proofs land. Free-variable claim: by correspondence (free_vars op) only so far.",
+        "level_note": PROOF_NOTE,
+        "technique": "Lean 4 proofs (per-rewrite HT/classical equivalence, congruence, composition, iteration) + differential correspondence",
+        "design_ref": "DESIGN.md 6/C07",
+        "trusted_base": COMMON_TRUST,
+        "assumptions": COMMON_ASSUME + ["fixpoint runs are compared up to a pass bound of 64; a run hitting the bound is reported under C18"],
+    },
+    "C17": {
+        "search": search_generic,
+        "suites": [("substitute", 4000, 100000)],
+        "rule": "seeded (formula, variable, term) triples: the variable mostly occurs in the formula, terms sort-compatible (1/12 deliberately not: expected panic), "
+                "small name pools so that binders reuse the substituted name / name variables of the term / several per block + corpus/substitute.txt; "
+                "Formula::substitute vs Lean `Formula.subst` (+ panic predicate), exact tree equality",
+        "level_text": "Partial: substitution lemma proved for terms and atoms unconditionally and for formulas under NoRename (no binder in scope occurs in the term); "
+                      "the renaming case of the (fixed) implementation is tied to the model by exact correspondence and the full statement SubstituteCorrect is stated but not yet proved. "
+                      "Two genuine defects were repaired (fix: b9b9933).",
+        "level_note": PROOF_NOTE,
+        "technique": "Lean 4 proof (substitution lemma by induction on fuel/depth, binder lists characterised by sets) + differential correspondence",
+        "design_ref": "DESIGN.md 6/C17",
+        "trusted_base": COMMON_TRUST,
+        "assumptions": COMMON_ASSUME,
+    },
+    "C18": {
+        "suites": [("simplify", 1500, 40000)],
+        "rule": "as C07(b): every portfolio x strategy on seeded formulas; the harness runs its own bounded fixpoint loop (64 passes) and, when it converges, "
+                "the real Apply::apply_fixpoint, and requires equal results; any timeout is reported",
+        "level_text": "Partial: fixpoint_idempotent / fixpoint_stable proved for every operation and pass bound (result of a converged loop is a fixpoint, simplifying again "
+                      "returns it unchanged); determinism is definitional for the model and is the content of the tie for the implementation; termination of the loop is "
+                      "not proved (no measure yet) - the correspondence reports any input exceeding 64 passes.",
+        "level_note": PROOF_NOTE + " Hash-seed and thread-timing effects on real processes are explored (two fresh processes), not proved.",
+        "technique": "Lean 4 proof (loop invariant of apply_fixpoint) + differential correspondence + repeated-process byte comparison",
+        "design_ref": "DESIGN.md 6/C18",
         "trusted_base": COMMON_TRUST,
         "assumptions": COMMON_ASSUME,
     },
